@@ -42,6 +42,7 @@ import (
 	"hash/fnv"
 	"sort"
 	"strings"
+	"time"
 	"unsafe"
 
 	"github.com/tink-crypto/tink-go/v2/internal/verifharness/hlib"
@@ -118,7 +119,7 @@ func abbrev(b []byte) string {
 
 type finding struct{ kind, detail string }
 
-var kindOrder = map[string]int{"guard-before": 0, "input-bytes": 1, "guard-cap": 2, "guard-after": 3, "retained": 4, "aliased-result": 5, "aliased-internal": 6}
+var kindOrder = map[string]int{"guard-before": 0, "input-bytes": 1, "guard-cap": 2, "guard-after": 3, "retained": 4, "aliased-internal": 5, "aliased-result": 6}
 
 // check compares the whole buffer with the saved copy and classifies every changed byte.
 func (g *guard) check(fs *[]finding) {
@@ -154,7 +155,7 @@ func (g *guard) check(fs *[]finding) {
 // new contents the reference for later comparisons.
 func (g *guard) scribble() {
 	for i := g.off; i < g.off+g.cp; i++ {
-		g.buf[i] ^= 0x5A
+		g.buf[i] += 0x5B
 	}
 	g.saved = bytes.Clone(g.buf)
 }
@@ -165,7 +166,7 @@ func (g *guard) changed() bool { return !bytes.Equal(g.buf, g.saved) }
 func scribbleOut(b []byte) {
 	b = b[:cap(b)]
 	for i := range b {
-		b[i] ^= 0xA5
+		b[i] += 0x51 // not an involution: a slice handed out twice is still different after two rounds
 	}
 }
 
@@ -219,10 +220,11 @@ type engine struct {
 	apis    map[string]int
 	dirty   map[string]int
 	skipped map[string]string
+	cost    map[string]float64 // seconds per api
 }
 
 func newEngine(o *hlib.Out) *engine {
-	return &engine{o: o, apis: map[string]int{}, dirty: map[string]int{}, skipped: map[string]string{}}
+	return &engine{o: o, apis: map[string]int{}, dirty: map[string]int{}, skipped: map[string]string{}, cost: map[string]float64{}}
 }
 
 func hexAll(bs [][]byte) string {
@@ -250,6 +252,8 @@ func (e *engine) skip(api, why string) {
 
 // run executes the guard-region protocol for one api: one line per layout.
 func (e *engine) run(s spec) {
+	t0 := time.Now()
+	defer func() { e.cost[s.api] += time.Since(t0).Seconds() }()
 	lays := s.lays
 	if lays == nil {
 		lays = layouts()
